@@ -6,7 +6,7 @@ from .values import _byte_type
 from .sym import (TRUE, FALSE, RS, IS, zand, zor, znot, zimp, State, Frame, HeapLV)
 from .expr import ERR_TAG
 
-SPEC_FUNCS = ("zzSameStr", "zzDisjoint", "zzDisjointStr", "zzOld", "zzImp", "zzForall", "zzExists", "zzResult", "zzIter", "zzFresh", "zzAlloc", "zzSameSlice", "zzNilErr", "zzLen")
+SPEC_FUNCS = ("zzStrIsBytes", "zzSameStr", "zzDisjoint", "zzDisjointStr", "zzOld", "zzImp", "zzForall", "zzExists", "zzResult", "zzIter", "zzFresh", "zzAlloc", "zzSameSlice", "zzNilErr", "zzLen")
 
 
 class CallMixin:
@@ -320,6 +320,10 @@ class CallMixin:
             if isinstance(v, IfaceV):
                 return z3.UGE(v.oid, rid(base))
             raise Unsupported("fresh() of this value")
+        if name == "zzStrIsBytes":
+            a = self.ev(args[0], st)
+            b = self.ev(args[1], st)
+            return z3.And(a.ln == b.ln, z3.Or(a.ln == 0, z3.And(a.rid == b.rid, a.off == b.off)))
         if name == "zzSameStr":
             a = self.ev(args[0], st)
             b = self.ev(args[1], st)
